@@ -298,6 +298,9 @@ def check_C04(ctx):
     for _ in range(ctx.n(200, 5000)):
         b = bytes(ctx.rng.choice([97, 90, 0xc3, 0x89, 0xe2, 0x84, 0xaa, 0xff, 0xed, 0xa0, 0x80, 0xf0, 0x90, 0x90, 0x80, 32]) for _ in range(ctx.rng.randrange(12)))
         cs.simple('lower', hx(b), 'lower-bytes')
+    # size and shape beyond small random rules (harness/scale.py)
+    for (t_, o_, fam_, *_m) in scale.long_strings(ctx):
+        cs.eval(t_, o_, fam_)
     res = ctx.run(cs)
     ev = [c for c in cs.cases if c.kind == 'eval']
     ctx.compare(ev, res, ['verdict', 'err'], scope=accepted)
@@ -347,6 +350,9 @@ def check_C09(ctx):
         cs.simple('semver', hx(v), 'semver-pool')
     for _ in range(ctx.n(1000, 30000)):
         cs.simple('semver', hx(rand_version(ctx.rng, valid=ctx.rng.random() < 0.5)), 'semver-random')
+    # size and shape beyond small random rules (harness/scale.py)
+    for (t_, o_, fam_, *_m) in scale.big_versions(ctx):
+        cs.eval(t_, o_, fam_)
     res = ctx.run(cs)
     ev = [c for c in cs.cases if c.kind == 'eval']
     ctx.compare(ev, res, ['verdict', 'err'], scope=accepted)
@@ -595,6 +601,9 @@ def check_C18(ctx):
                     if a != ABSENT:
                         cc[op] = cs.opcall(OPT[kind], op, a, right_sx(kind, lit), 'call-' + kind)
                 vectors.append((kind, a, lit, rc, cc))
+    # size and shape beyond small random rules (harness/scale.py)
+    for (t_, o_, fam_, *_m) in scale.long_strings(ctx) + scale.big_versions(ctx):
+        cs.eval(t_, o_, fam_)
     res = ctx.run(cs)
     ctx.compare([c for c in cs.cases if c.kind == 'eval'], res, ['verdict', 'err'], scope=accepted)
     ctx.compare([c for c in cs.cases if c.kind == 'opcall'], res, ['res', 'err'])
@@ -936,6 +945,23 @@ def check_C17(ctx):
     # size and shape beyond small random rules (harness/scale.py)
     for (t_, o_, fam_, *_m) in scale.long_fail_chains(ctx):
         cs.eval(t_, o_, fam_)
+    # the laws with LONG operands: chains of 33 / 66 / 100 comparisons, a failing or undecided one far inside, deep negations
+    for n in ([33, 66] if ctx.quick else [33, 66, 100, 257]):
+        for far in ('k%d eq %d' % (n - 2, n - 2), 'k gt null', 'zz eq 99999999999999999999', 'p eq "a"'):
+            parts = ['k%d eq %d' % (i, i) for i in range(n)]
+            parts[n - 2] = far
+            for joiner in (' or ', ' and '):
+                L = joiner.join(parts)
+                for o in (objs[0], obj({'k%d' % i: I(i) for i in range(n)}), obj({'k0': I(0), 'k': I(1)})):
+                    add(L, 't pr', 'k eq 1', o, 'law-long')
+                    add('zz pr', L, 't pr', o, 'law-long')
+                    add('k eq 1', 'k gt null', L, o, 'law-long')
+    for depth in (9, 17, 33):
+        A = 't pr'
+        for _ in range(depth):
+            A = 'not (%s)' % A
+        add(A, 'k gt null', 'zz pr', objs[0], 'law-long')
+        add('k gt null', A, A, objs[0], 'law-long')
     res = ctx.run(cs)
     ctx.compare(cs.cases, res, ['verdict', 'err'], scope=accepted)
     for name, l, r, cond, a1, b1 in inst:
@@ -1012,6 +1038,8 @@ def check_C05(ctx):
     # size and shape beyond small random rules (harness/scale.py)
     for (t_, o_, fam_, *_m) in scale.long_texts(ctx):
         cs.eval(t_, o_, fam_)
+    for t_ in scale.long_tokens(ctx):
+        cs.eval(t_, obj({'x': I(1)}), 'long-token')
     res = ctx.run(cs)
     ctx.compare(cs.cases, res, ['accept', 'verdict', 'err', 'ev3'])
     nrej = 0
@@ -1040,6 +1068,9 @@ def check_C20(ctx):
               'e5', 'e+5', 'E-5', '1e5', '1e+5', '1.5e5', '1.5e+5', '1.5e', '-1', '-1.5', '- 1', '--1', '01', '0', '00', '0.0', '00.0', '-0.5', '1.0.0', '01.0.0', '1.00.0',
               '""', '"a"', '"a', 'a"', '"\\n"', '"\\x"', '"\\u12ab"', '"\\u12a"', '"\n"', '"a"b"', ',', ', ', ',  ', ' ,', ' ', '  ', ' \n', '\n', '\n ', ' \n\n ', '\r', '\t']:
         cs.syntax(t, 'token-facts')
+    # long tokens (harness/scale.py)
+    for t_ in scale.long_tokens(ctx):
+        cs.syntax(t_, 'long-token')
     res = ctx.run(cs)
     ctx.compare(cs.cases, res, ['lexok', 'toks', 'accept', 'tree'], nontrivial=lambda c, mo: True)
     nacc = sum(1 for c in cs.cases if (res.model.get(c.id) or {}).get('accept') == '1')
@@ -1153,6 +1184,22 @@ def check_C11(ctx):
         for _ in range(ctx.n(20, 300)):
             ops = [(ctx.rng.choice(['p', 'q']), ctx.rng.choice(T_OBJS)) if ctx.rng.random() < 0.8 else (ctx.rng.choice(['r', 'd']),) for _ in range(ctx.rng.randint(3, 8))]
             h = cs.hist(text, ops, 'hist-targeted')
+            fresh = [cs.eval(text, o[1], 'hist-fresh') if o[0] in ('p', 'q') else None for o in ops]
+            hs.append((h, ops, fresh))
+    # long lives: one evaluator used for 17 .. 129 (257) calls, alternating objects, Reset at odd moments
+    for text in T_RULES[:8] + ['x in [1, 2, 3, 4, 5, 6, 7, 8, 9, 10, 11, 12, 13, 14, 15, 16, 17, 99999999999999999999] or y eq 1', 'a.b.c eq 1 and a.b.d eq 2 or a.e pr']:
+        for n in ([17, 33, 65] if ctx.quick else [17, 33, 65, 129, 257]):
+            ops = []
+            for i in range(n):
+                r = ctx.rng.random()
+                if r < 0.85:
+                    ops.append((ctx.rng.choice(['p', 'p', 'q']), T_OBJS[(i * 7 + ctx.rng.randrange(3)) % len(T_OBJS)]))
+                elif r < 0.93:
+                    ops.append(('d',))
+                else:
+                    ops.append(('r',))
+            ops.append(('d',))
+            h = cs.hist(text, ops, 'hist-long')
             fresh = [cs.eval(text, o[1], 'hist-fresh') if o[0] in ('p', 'q') else None for o in ops]
             hs.append((h, ops, fresh))
     res = ctx.run(cs)
@@ -1324,6 +1371,28 @@ def check_C19(ctx):
             ops += ['(error %d)' % (depth - 1)] * 2
         body = '%s (%s) (%s)' % (hx(cause), ' '.join(hx(m) for m in msgs), ' '.join(ops))
         cs.simple('nerr', body, 'nerr', cause=cause, msgs=msgs, ops=ops)
+    # size: deep chains (Original only: the text of Error doubles per layer), many keys in one Set, many Set calls
+    for depth in ([16, 17, 32, 33, 64, 65, 129] if ctx.quick else [16, 17, 32, 33, 64, 65, 129, 300, 1025]):
+        ops = ['(orig %d)' % k for k in sorted(set([0, 1, depth // 2, depth - 2, depth - 1]))] + ['(set %d (%s (s %s)))' % (depth - 1, hx('k'), hx('v')), '(orig %d)' % (depth - 1)]
+        body = '%s (%s) (%s)' % (hx('root cause'), ' '.join(hx('m%d' % i) for i in range(depth)), ' '.join(ops))
+        cs.simple('nerr', body, 'nerr-deep', cause='root cause', msgs=['m'] * depth, ops=ops)
+    for nk in ([7, 8, 9, 16, 17, 32, 33, 64, 65] if ctx.quick else [7, 8, 9, 16, 17, 32, 33, 64, 65, 257, 1025]):
+        for depth in (1, 2):
+            kv = lambda i, v: '(%s (s %s))' % (hx('key%04d' % ((i * 37) % nk)), hx(v))
+            ops = ['(set 0 %s)' % ' '.join(kv(i, 'v%d' % i) for i in range(nk)), '(error %d)' % (depth - 1), '(error 0)',
+                   '(set 0 %s)' % ' '.join(kv(i, 'w%d' % i) for i in range(0, nk, 2)), '(error 0)', '(error 0)', '(orig 0)',
+                   '(set %d %s %s)' % (depth - 1, kv(1, 'z'), '(%s (v 7 none))' % hx('bad')), '(error %d)' % (depth - 1), '(error %d)' % (depth - 1)]
+            body = '%s (%s) (%s)' % (hx('boom'), ' '.join(hx('m%d' % i) for i in range(depth)), ' '.join(ops))
+            cs.simple('nerr', body, 'nerr-wide', cause='boom', msgs=['m'] * depth, ops=ops)
+    for ns in ([20, 70] if ctx.quick else [20, 70, 300]):
+        ops = []
+        for i in range(ns):
+            ops.append('(set 0 (%s (s %s)) (%s (s %s)))' % (hx('k%d' % (i % 5)), hx('v%d' % i), hx('u%d' % (i % 11)), hx('x%d' % i)))
+            if i % 9 == 8:
+                ops += ['(error 0)', '(error 0)']
+        ops += ['(error 0)', '(error 0)']
+        body = '%s (%s) (%s)' % (hx('boom'), hx('m'), ' '.join(ops))
+        cs.simple('nerr', body, 'nerr-many-sets', cause='boom', msgs=['m'], ops=ops)
     res = ctx.run(cs)
     ctx.compare(cs.cases, res, ['out'], nontrivial=lambda c, mo: True)
     spec_violations(ctx, 'NestedError')
